@@ -145,7 +145,7 @@ impl Prop for C03 {
         "C03"
     }
     fn rule(&self) -> String {
-        "cases = conversations of 1-8 commands (QUERY, PREPARE ok/error, EXECUTE, INIT_DB and `USE` ok/error incl. a shim that keeps the trait's default on_init, PING, FIELD_LIST, SELECT @@ probes, CLOSE, SEND_LONG_DATA) with a sentinel PING after every command; every QUERY/EXECUTE carries a generated writer program (chains of 0-4 complete_one / finish_one units + terminal completed / finish / error / finish_error / dropped RowWriter / no_more_results / dropped QueryResultWriter; 0-300 columns; rows via write_row, write_col+end_row, or left open before finish); 1 in 5 cases adds one shape-contradicting row (too few / too many cells, NULL into NOT NULL, foreign type). Oracle: abstract interpreter of the program vs. reference response state machine. Non-trivial = some program has >= 2 result units, a drop terminal, an error after >= 1 row, a zero-column set with rows, or a contradicting row.".into()
+        "cases = conversations of 1-8 commands (QUERY, PREPARE ok/error, EXECUTE, INIT_DB and `USE` ok/error incl. a shim that keeps the trait's default on_init, PING, FIELD_LIST, SELECT @@ probes, CLOSE, SEND_LONG_DATA) with a sentinel PING after every command; every QUERY/EXECUTE carries a generated writer program (chains of 0-4 complete_one / finish_one units + terminal completed / finish / error / finish_error / dropped RowWriter / no_more_results / dropped QueryResultWriter; 0-300 columns; rows via write_row, write_col+end_row, or left open before finish); 1 in 5 cases adds one shape-contradicting row (too few / too many cells, NULL into NOT NULL, foreign type). Enumerated also: chains of 256 and 65536 (thorough: 255-257, 65535-65537, 131072) resultsets/completions and single resultsets of that many rows, in both protocols. Oracle: abstract interpreter of the program vs. reference response state machine. Non-trivial = some program has >= 2 result units, a drop terminal, an error after >= 1 row, a zero-column set with rows, or a contradicting row.".into()
     }
     fn assumptions(&self) -> Vec<String> {
         vec![
@@ -199,6 +199,36 @@ impl Prop for C03 {
                 };
                 conv.forget_on_refusal = true;
                 v.push(Case { conv, contradiction: None, abandoned_row: true });
+            }
+        }
+        // responses whose unit and row counts cross 2^8 and 2^16: chains of 255-257 and 65535-65537
+        // resultsets / completions, resultsets of 65535-65537 rows
+        let counts: &[usize] = match tier {
+            Tier::Quick => &[256, 65_536],
+            Tier::Thorough => &[255, 256, 257, 65_535, 65_536, 65_537, 131_072],
+        };
+        for (i, &n) in counts.iter().enumerate() {
+            for bin in [false, true] {
+                let cols = vec![ColSpec::simple("a", T_LONG, 0)];
+                let row = |k: usize| RowProg { cells: vec![Val::plain(Base::I32(k as i32))], form: if k % 2 == 0 { RowForm::WriteRow } else { RowForm::Cols }, offers: vec![] };
+                // (a) a chain of n units
+                let mut steps: Vec<Step> = (0..n - 1)
+                    .map(|k| if k % 3 == 2 { Step::Set { cols: cols.clone(), rows: vec![row(k)], end: SetEnd::FinishOne } } else { Step::CompleteOne { rows: k as u64, id: 0 } })
+                    .collect();
+                steps.push(if i % 2 == 0 { Step::Completed { rows: 1, id: 1 } } else { Step::Set { cols: cols.clone(), rows: vec![], end: SetEnd::Finish } });
+                // (b) one resultset of n rows
+                let many = Program { steps: vec![Step::Set { cols: cols.clone(), rows: (0..n).map(row).collect(), end: SetEnd::Finish }] };
+                for prog in [Program { steps }, many] {
+                    let conv = if bin {
+                        Conversation::new(
+                            vec![Cmd::Prepare { text: Blob::text("p") }, Cmd::Execute { id: 1, params: vec![], send_types: false, flags: 0, iterations: 1 }, Cmd::Ping],
+                            vec![Action::Prepare(PrepProg::Reply { id: 1, params: vec![], cols: vec![] }), Action::Result(prog)],
+                        )
+                    } else {
+                        Conversation::new(vec![Cmd::Query { text: Blob::text("q") }, Cmd::Ping], vec![Action::Result(prog)])
+                    };
+                    v.push(Case { conv, contradiction: None, abandoned_row: false });
+                }
             }
         }
         v
